@@ -375,5 +375,43 @@ def chk_similarity_sequence(ctx, case):
             ctx.fail("orbit_to_sample-leaves-orbit", f"orbit_to_sample({orbit}, {modes}) gives {st}: {r} (argument afterwards {arg})", rp)
 
 
-K.CHECKS.update(similarity_sequence=chk_similarity_sequence, clique_search=chk_clique_search, history=chk_history, orbits_interleaved=chk_orbits_interleaved,
+def chk_big_counts(ctx, case):
+    """integer comparisons at a large scale (relative differences of 1e-6): postselect bounds, event bound"""
+    from strawberryfields.apps import sample, similarity
+    samples, lo, hi, m = case["samples"], case["min"], case["max"], case["m"]
+    ctx.oracle_cases += 1
+    rp = dict(chk="big_counts", case=case)
+    ps = sample.postselect([list(s) for s in samples], lo, hi)
+    if [list(s) for s in ps] != [list(s) for s in samples if lo <= sum(s) <= hi]:
+        ctx.fail("postselect-wrong", f"postselect({samples}, {lo}, {hi}) = {ps}", rp)
+    out = []
+    for s in samples:
+        e = similarity.sample_to_event(list(s), m)
+        o = similarity.sample_to_orbit(list(s))
+        out.append([e, [int(x) for x in o]])
+        if e != (sum(s) if max(s) <= m else None):
+            ctx.fail("sample_to_event-wrong", f"sample_to_event({s}, {m}) = {e}, expected {sum(s) if max(s) <= m else None}", rp)
+        if list(o) != sorted((x for x in s if x), reverse=True):
+            ctx.fail("sample_to_orbit-wrong", f"sample_to_orbit({s}) = {o}", rp)
+    return [[int(x) for x in s] for s in ps], out
+
+
+def chk_is_clique_big(ctx, case):
+    """the edge-count test at a scale where one missing edge is a relative difference below 1e-5"""
+    import networkx as nx
+    from strawberryfields.apps import clique
+    n, missing = case["n"], [tuple(e) for e in case["missing"]]
+    ctx.oracle_cases += 1
+    rp = dict(chk="is_clique_big", case=case)
+    g = nx.complete_graph(n)
+    g.remove_edges_from(missing)
+    got = bool(clique.is_clique(g))
+    if got != (not missing):
+        ctx.fail("is_clique-wrong", f"is_clique(K{n} minus edges {missing}) = {got}", rp)
+    st, r = K._call(clique.c_0, list(range(n)), g)
+    if missing and st != "ValueError":
+        ctx.fail("c_0-accepts-non-clique", f"c_0(all nodes, K{n} minus edges {missing}) gives {st}", rp)
+
+
+K.CHECKS.update(big_counts=chk_big_counts, is_clique_big=chk_is_clique_big, similarity_sequence=chk_similarity_sequence, clique_search=chk_clique_search, history=chk_history, orbits_interleaved=chk_orbits_interleaved,
                 event_to_sample=chk_event_to_sample, feature_sampling=chk_feature_sampling)
